@@ -85,7 +85,9 @@ func ruleGuardCompose(c *Ctx) {
 		if fd.Body == nil || name == "compose" {
 			continue
 		}
-		fp := funcProps(name)
+		// an exponent outside the 14-bit field also breaks the encoding itself (C12: an independent decoder
+		// must recover the same fields)
+		fp := append(append([]string{}, funcProps(name)...), "C12")
 		env := p.newCanonEnv(fd)
 		walkStack(fd.Body, func(n ast.Node, stack []ast.Node) {
 			call, ok := n.(*ast.CallExpr)
